@@ -178,9 +178,27 @@ pub fn wire_of_phi(phi: f64) -> i64 {
 /// Runs try_from_banks on a big-stack thread and projects the result.
 pub fn build_and_project(run: u32, banks: &[BankB], detail: Detail) -> Map<String, Value> {
     let owned: Vec<(Vec<u8>, Vec<u8>)> = banks.iter().map(|b| (b.name.clone(), b.data.clone())).collect();
-    let h = std::thread::Builder::new()
-        .stack_size(256 << 20)
-        .spawn(move || {
+    let h = std::thread::Builder::new().stack_size(256 << 20).spawn(move || project_on_this_thread(run, owned, detail)).unwrap();
+    match h.join() {
+        Ok(m) => m,
+        Err(p) => {
+            let msg = if let Some(s) = p.downcast_ref::<&str>() {
+                s.to_string()
+            } else if let Some(s) = p.downcast_ref::<String>() {
+                s.clone()
+            } else {
+                "panic".into()
+            };
+            obj(vec![("verdict", json!("panic")), ("msg", json!(msg))])
+        }
+    }
+}
+
+/// The same on the calling thread (which must have a big stack): used by a long-lived worker thread so
+/// that per-thread state of the library, if it had any, would carry over from one event to the next.
+pub fn project_on_this_thread(run: u32, owned: Vec<(Vec<u8>, Vec<u8>)>, detail: Detail) -> Map<String, Value> {
+    {
+        {
             let names: Vec<String> = owned.iter().map(|(n, _)| String::from_utf8_lossy(n).into_owned()).collect();
             let it = names.iter().zip(owned.iter()).map(|(n, (_, d))| (n.as_str(), &d[..]));
             let mut m = Map::new();
@@ -245,19 +263,6 @@ pub fn build_and_project(run: u32, banks: &[BankB], detail: Detail) -> Map<Strin
                 }
             }
             m
-        })
-        .unwrap();
-    match h.join() {
-        Ok(m) => m,
-        Err(p) => {
-            let msg = if let Some(s) = p.downcast_ref::<&str>() {
-                s.to_string()
-            } else if let Some(s) = p.downcast_ref::<String>() {
-                s.clone()
-            } else {
-                "panic".into()
-            };
-            obj(vec![("verdict", json!("panic")), ("msg", json!(msg))])
         }
     }
 }
